@@ -154,7 +154,7 @@ def relations(h, broadcast="elementwise"):
         h.holds("intersects agrees with the set-theoretic answer", want_its if gi else (~want_its if h.is_sym() and not isinstance(want_its, (bool, np.bool_)) else (not want_its)))
 
 
-def _disk(h, c, r, unbounded):
+def _side_disk(h, c, r, unbounded):
     """a disk with boundary circle |z - c| = r: the bounded side through the constructor, the side containing infinity from its four defining
     points directly (three boundary points and an interior point outside the circle), which needs no complement() / emath.sqrt"""
     if not unbounded:
@@ -180,8 +180,8 @@ def relations_any(h, broadcast="elementwise", ua=False, ub=True):
         c1 = (FC(F.const(0.5), F.const(0.25)) if h.is_sym() else complex(0.5, 0.25))
         h.assume(r1 > 0, 'radius > 0')
         h.assume(r2 > 0, 'radius > 0')
-        A = _disk(h, c1, r1, ua)
-        B = _disk(h, c2, r2, ub)
+        A = _side_disk(h, c1, r1, ua)
+        B = _side_disk(h, c2, r2, ub)
         h.eq("A contains infinity as constructed", np.array(bool(np.asarray(A.center_inside()).flat[0])), np.array(not ua))
         h.eq("B contains infinity as constructed", np.array(bool(np.asarray(B.center_inside()).flat[0])), np.array(not ub))
         d = c1 - c2
@@ -222,8 +222,8 @@ def relations_mixed(h, broadcast="pairwise"):
         h.assume(r1 > 0, 'radius > 0')
         h.assume(r2 > 0, 'radius > 0')
         order_b = (True, False)       # opposite order to A: the pattern of bounded / unbounded entries is not symmetric
-        A = cp.CP1Disk(np.concatenate([_disk(h, c1, r1, u).proj_data for u in (False, True)]))
-        B = cp.CP1Disk(np.concatenate([_disk(h, c2, r2, u).proj_data for u in order_b]))
+        A = cp.CP1Disk(np.concatenate([_side_disk(h, c1, r1, u).proj_data for u in (False, True)]))
+        B = cp.CP1Disk(np.concatenate([_side_disk(h, c2, r2, u).proj_data for u in order_b]))
         d = c1 - c2
         d2 = (d.re * d.re + d.im * d.im) if h.is_sym() else abs(d) ** 2
         h.assume((d2 != (r1 - r2) * (r1 - r2)) if h.is_sym() else abs(d2 - (r1 - r2) ** 2) > 1e-3, 'not internally tangent')
